@@ -396,21 +396,22 @@ func (b *baseExecutor) buildLockKey(records *types.RecordImage, meta types.Table
 			lockKeys.WriteString(",")
 		}
 		pkSplitIndex := 0
-		for _, column := range row.Columns {
-			var hasKeyColumn bool
-			for _, key := range keys {
+		// key columns in primary-key order, once each, whatever the column order of the image:
+		// the same row must give the same text from every statement form
+		for _, key := range keys {
+			for _, column := range row.Columns {
 				if column.ColumnName == key {
-					hasKeyColumn = true
 					if pkSplitIndex > 0 {
 						lockKeys.WriteString("_")
 					}
 					lockKeys.WriteString(fmt.Sprintf("%v", column.Value))
 					pkSplitIndex++
+					break
 				}
 			}
-			if hasKeyColumn {
-				filedSequence++
-			}
+		}
+		if pkSplitIndex > 0 {
+			filedSequence++
 		}
 	}
 
